@@ -72,6 +72,8 @@ def call(ctx, t, op, sid, fn, sock=None):
         raise
     except BaseException as e:
         r = ("exc", "exc:" + type(e).__name__)
+        if os.environ.get("C09_TRACEBACK"):
+            traceback.print_exc()
         raise
     finally:
         ctx.incall[t] = False
